@@ -239,7 +239,22 @@ def handleExec (toks : List String) : String :=
           | .ok _, _ => "compiled"
           | .error .err, _ => "compile-err"
           | .error .panic, _ => "compile-panic"
-        render r ++ " | claim=" ++ claim ++ (if tags.isEmpty then "" else " | tags=" ++ ",".intercalate tags) ++
+        -- `again=L`: a second execution on the same VM with the packet cut to its first L bytes.  The probes that carry it store
+        -- only to the private stack, so the second execution starts from the same buffers (C09: on EVERY execution the
+        -- fixed-metadata slots describe the packet of that execution)
+        let againS := match (look (kvOf toks) "again").bind (·.toNat?) with
+          | some l2 =>
+            if l2 ≤ c.mem.size then
+              let c2 := { c with mem := c.mem.extract 0 l2 }
+              let (t2, r2) := Taint.run env ptrSlots (c.patch.map (·.1)) c.budget (Taint.init (mkMem c2))
+              let s2 := match r2 with
+                | .done v _ => s!"ok:r0={bvHex v}"
+                | .err e _ => s!"err:{errName e}"
+                | .panic => "panic" | .fault => "fault" | .timeout _ => "budget"
+              " | againsem=" ++ s2 ++ " | claim2=" ++ (match r2 with | .done _ _ => (if t2.inClaim then "in" else "out") | _ => "out")
+            else ""
+          | none => ""
+        render r ++ againS ++ " | claim=" ++ claim ++ (if tags.isEmpty then "" else " | tags=" ++ ",".intercalate tags) ++
           " | jitsem=" ++ eng "jit" (EngineSem.jitCompile env) (fun _ => EngineSem.jitRun env m0 c.budget) ++
           " | clifsem=" ++ eng "clif" (EngineSem.clifCompile env) (fun _ => EngineSem.clifRun env m0 c.budget) ++ " | jitcodesem=" ++ jitcode ++ " | x86sem=" ++ x86sem ++ " | x86valid=" ++ x86valid
       else
